@@ -176,9 +176,12 @@ func (e *shufEngine) Run() error {
 	return nil
 }
 
-type hookFn func(ctx sim.HookCtx)
+// hook adapts a function to sim.Hook (a pointer, so that hook lists can compare entries).
+type hook struct{ f func(ctx sim.HookCtx) }
 
-func (f hookFn) Func(ctx sim.HookCtx) { f(ctx) }
+func (h *hook) Func(ctx sim.HookCtx) { h.f(ctx) }
+
+func hookFn(f func(ctx sim.HookCtx)) sim.Hook { return &hook{f} }
 
 // ------------------------------------------------------------ the platform
 
@@ -493,18 +496,20 @@ func tryPort(d *nvdriver.Driver, name string) (p sim.Port) {
 	return d.GetPortByName(name)
 }
 
+type livelock struct{ events int }
+
 // runSim executes one simulation scenario.
 func runSim(sc *Scenario, r *recorder, tmp string) {
 	var dir string
-	var files []*aFile
 	if sc.Mode == "dir" {
 		dir = sc.Dir
 	} else {
+		// the platform and the trace are known up front: log them before any real code runs
+		r.emit("Reset", rec{"shape": sc.Shape, "tr": sc.Tr, "engine": sc.Engine, "runner": sc.Runner})
 		dir = filepath.Join(tmp, fmt.Sprintf("trace_%d", r.seq))
-		files = writeTraceDir(dir, sc)
+		writeTraceDir(dir, sc)
 		defer os.RemoveAll(dir)
 	}
-	_ = files
 	bm := new(benchmark.BenchmarkBuilder).WithTraceDirectory(dir).Build()
 	var pl *plat
 	var eng sim.Engine
@@ -525,15 +530,37 @@ func runSim(sc *Scenario, r *recorder, tmp string) {
 	}
 	tr := sc.Tr
 	if sc.Mode == "dir" {
-		tr = nil
+		tr = [][][]int{}
 		for _, ek := range kernels {
 			tr = append(tr, kernelShape(ek.GetKernel()))
 		}
-		if tr == nil {
-			tr = [][][]int{}
+		r.emit("Reset", rec{"shape": pl.shape, "tr": tr, "engine": sc.Engine, "runner": sc.Runner})
+	} else if !reflect.DeepEqual(pl.shape, sc.Shape) {
+		r.emit("Mismatch", rec{"what": "platform shape", "got": pl.shape, "want": sc.Shape})
+		return
+	}
+	// Livelock is decided structurally: a run needs a number of engine events that is linear
+	// in the size of the trace; far beyond that the run is aborted and the trace spec has no
+	// action for the Livelock line.
+	budget := 20000
+	for _, k := range tr {
+		budget += 400
+		for _, b := range k {
+			budget += 400
+			for _, n := range b {
+				budget += 400 * (1 + n)
+			}
 		}
 	}
-	r.emit("Reset", rec{"shape": pl.shape, "tr": tr, "engine": sc.Engine, "runner": sc.Runner})
+	handled := 0
+	eng.AcceptHook(hookFn(func(ctx sim.HookCtx) {
+		if ctx.Pos == sim.HookPosAfterEvent {
+			handled++
+			if handled > budget {
+				panic(livelock{handled})
+			}
+		}
+	}))
 	pl.hookAll(dp)
 	curPlat = pl
 	defer func() { curPlat = nil }()
@@ -620,6 +647,10 @@ func runSim(sc *Scenario, r *recorder, tmp string) {
 func safely(r *recorder, f func()) {
 	defer func() {
 		if x := recover(); x != nil {
+			if ll, ok := x.(livelock); ok {
+				r.emit("Livelock", rec{"events": ll.events})
+				return
+			}
 			msg := fmt.Sprint(x)
 			if e, ok := x.(*log.Entry); ok {
 				msg = e.Message
